@@ -277,6 +277,7 @@ def run(rep: Report, tier: str) -> None:
     iso_year_rule(rep, macros, "R08.5")
     _date_timeshift_table(P, rep)
     _time_agg_date_table(P, rep)
+    _python_calendar_table(P, rep)
     from sa import intdiv
     rep.rule("R08.6", "time macros and generated time SQL: no `/` between integer-typed operands (DuckDB `/` is float division)")
     ndiv = intdiv.rule(rep, P, "R08.6", only_macros=None, skeleton_prefixes=("vtlengine.duckdb_transpiler",))
@@ -402,6 +403,80 @@ def _date_timeshift_table(P: Program, rep: Report) -> None:  # noqa: C901
                                     f"timeshift by {n} maps two dates of the month-end {fq} series {[x.isoformat() for x in series]} to the same date: duplicate identifiers"))
     rep.instance("R08.7", "round-trips", sample={"evaluated": nrt, "failing in the day-28 class": n28})
     rep.floor("R08.7 round trips evaluated", nrt, 5000)
+
+
+def _python_calendar_table(P: Program, rep: Report) -> None:
+    """R08.9  The scalar calendar helpers of DataTypes/TimeHandling.py (day_of_year, max_periods_in_year, period_to_date,
+    from_input_customer_support_to_internal) are evaluated by the finite evaluator (standard-library datetime/calendar are its
+    primitives) over a grid of dates that contains every leap-rule class of 1900-2100 (1900 and 2100: divisible by 100 and not
+    by 400; 2000; 2004/2020/2024; ordinary years) and 52-/53-week ISO years, and compared with the calendar."""
+    import datetime as _d
+    from sa import e6 as _e6
+    rep.rule("R08.9", "Python calendar helpers (day_of_year, max_periods_in_year, period_to_date, period-string parsing): result = calendar, over every leap-rule class of 1900-2100 and 52/53-week years")
+    TH = "vtlengine.DataTypes.TimeHandling"
+    years = (1900, 1996, 1999, 2000, 2004, 2015, 2019, 2020, 2021, 2023, 2024, 2026, 2032, 2100)
+    ev = _e6.Interp(P, max_steps=10_000_000)
+    n = 0
+    shown: Dict[str, int] = {}
+
+    def run(fname: str, *args: Any) -> Any:
+        f = P.functions.get(f"{TH}.{fname}")
+        if f is None:
+            raise AnalysisError(f"anchor vanished: {TH}.{fname}")
+        names = [a.arg for a in f.node.args.args]
+        try:
+            return ev.call(f, dict(zip(names, args)))
+        except _e6.Raised as ex:
+            return f"<raises {getattr(ex.exc, 'cls', ex.exc)}>"
+        except _e6.Unmodelled as ex:
+            raise AnalysisError(f"R08.9: {fname} is outside the evaluator's language: {ex}")
+        except Exception as ex:  # a standard-library primitive rejected its arguments
+            return f"<raises {type(ex).__name__}: {str(ex)[:40]}>"
+
+    def cmp(fname: str, args: tuple, got: Any, want: Any, why: str) -> None:
+        nonlocal n
+        n += 1
+        if got != want and shown.get(fname, 0) < 4:
+            shown[fname] = shown.get(fname, 0) + 1
+            f = P.functions[f"{TH}.{fname}"]
+            rep.add(Finding("R08.9", f"R08.9/{fname}/{'/'.join(map(str, args))}", f.module.rel, f.node.lineno, f.qualname,
+                            f"{fname}{args!r} evaluates to {got!r}; the calendar says {want!r} ({why})"))
+
+    for y in years:
+        leap = (y % 4 == 0 and y % 100 != 0) or y % 400 == 0
+        days = [_d.date(y, 1, 1), _d.date(y, 2, 28), _d.date(y, 3, 1), _d.date(y, 6, 30), _d.date(y, 12, 30), _d.date(y, 12, 31)]
+        if leap:
+            days.append(_d.date(y, 2, 29))
+        for d in days:
+            want = (d - _d.date(y, 1, 1)).days + 1
+            s_ = d.isoformat()
+            cmp("day_of_year", (s_,), run("day_of_year", s_), want, f"{y} is {'a' if leap else 'not a'} leap year")
+            cmp("from_input_customer_support_to_internal", (s_,), run("from_input_customer_support_to_internal", s_), (y, "D", want), "day number of an ISO date")
+        ndays = 366 if leap else 365
+        nweeks = _d.date(y, 12, 28).isocalendar()[1]
+        cmp("max_periods_in_year", ("D", y), run("max_periods_in_year", "D", y), ndays, "days of the year")
+        cmp("max_periods_in_year", ("W", y), run("max_periods_in_year", "W", y), nweeks, "ISO weeks of the year")
+        for k in (1, 59, 60, 61, 365) + ((366,) if leap else ()):
+            for start in (True, False):
+                cmp("period_to_date", (y, "D", k, start), run("period_to_date", y, "D", k, start), _d.date(y, 1, 1) + _d.timedelta(days=k - 1), "k-th day of the year")
+        for k in (1, 2, 52) + ((53,) if nweeks == 53 else ()):
+            cmp("period_to_date", (y, "W", k, True), run("period_to_date", y, "W", k, True), _d.date.fromisocalendar(y, k, 1), "Monday of the ISO week")
+            cmp("period_to_date", (y, "W", k, False), run("period_to_date", y, "W", k, False), _d.date.fromisocalendar(y, k, 7), "Sunday of the ISO week")
+        for mth in range(1, 13):
+            last = (_d.date(y + (mth == 12), mth % 12 + 1, 1) - _d.timedelta(days=1))
+            cmp("period_to_date", (y, "M", mth, True), run("period_to_date", y, "M", mth, True), _d.date(y, mth, 1), "first day of the month")
+            cmp("period_to_date", (y, "M", mth, False), run("period_to_date", y, "M", mth, False), last, "last day of the month")
+        for q in range(1, 5):
+            cmp("period_to_date", (y, "Q", q, True), run("period_to_date", y, "Q", q, True), _d.date(y, 3 * q - 2, 1), "first day of the quarter")
+            lastq = _d.date(y + (q == 4), (3 * q) % 12 + 1, 1) - _d.timedelta(days=1)
+            cmp("period_to_date", (y, "Q", q, False), run("period_to_date", y, "Q", q, False), lastq, "last day of the quarter")
+        for sm in (1, 2):
+            cmp("period_to_date", (y, "S", sm, True), run("period_to_date", y, "S", sm, True), _d.date(y, 6 * sm - 5, 1), "first day of the semester")
+            cmp("period_to_date", (y, "S", sm, False), run("period_to_date", y, "S", sm, False), _d.date(y, 6, 30) if sm == 1 else _d.date(y, 12, 31), "last day of the semester")
+        cmp("period_to_date", (y, "A", 1, True), run("period_to_date", y, "A", 1, True), _d.date(y, 1, 1), "first day of the year")
+        cmp("period_to_date", (y, "A", 1, False), run("period_to_date", y, "A", 1, False), _d.date(y, 12, 31), "last day of the year")
+    rep.instance("R08.9", "calendar-helper-evaluations", sample={"evaluated": n, "years": list(years)})
+    rep.floor("R08.9 evaluations", n, 900)
 
 
 def _time_agg_date_table(P: Program, rep: Report) -> None:
